@@ -411,17 +411,26 @@ class Analysis(object):
             try:
                 m = self.repo.mod("miasm/expression/simplifications_explicit.py")
                 f = m.func("simp_flags")
+                from .astutil import arm_when, positive_test
                 for n in ast.walk(f):
-                    if isinstance(n, ast.If) and isinstance(n.test, ast.Call) and dotted(n.test.func) == "expr.is_op" and n.test.args \
-                            and isinstance(n.test.args[0], ast.Constant):
+                    pt_ = positive_test(n) if isinstance(n, ast.If) else None
+                    if pt_ is not None and isinstance(pt_, ast.Call) and dotted(pt_.func) == "expr.is_op" and pt_.args \
+                            and isinstance(pt_.args[0], ast.Constant):
                         ar = 0
-                        for x in ast.walk(ast.Module(body=n.body, type_ignores=[])):
+                        region = arm_when(n, True)
+                        # only up to the next dispatch test: what follows belongs to other operators
+                        cut = []
+                        for s_ in region:
+                            if isinstance(s_, ast.If) and s_ is not n and isinstance(positive_test(s_), ast.Call) and dotted(positive_test(s_).func) == "expr.is_op":
+                                break
+                            cut.append(s_)
+                        for x in ast.walk(ast.Module(body=cut, type_ignores=[])):
                             if isinstance(x, ast.Assign) and isinstance(x.targets[0], ast.Tuple) and norm(x.value) == "args":
                                 ar = max(ar, len(x.targets[0].elts))
                             if isinstance(x, ast.Subscript) and norm(x.value) == "args" and isinstance(x.slice, ast.Constant):
                                 ar = max(ar, x.slice.value + 1)
                         if ar:
-                            out[n.test.args[0].value] = ar
+                            out[pt_.args[0].value] = ar
             except Exception:
                 pass
             # FLAG_SIGN_ADD is produced by no lifter and has no branch in simp_flags; by symmetry with FLAG_SIGN_SUB it is binary
